@@ -312,6 +312,90 @@ fn wrap_groups(e: syn::Expr, n: usize) -> syn::Expr {
     e
 }
 
+/// Histories on one thread: what a conversion answers for an item does not depend on how many
+/// items were refused before it, and each attribute is located at its own tokens whatever was
+/// looked at before.
+fn history_probes(t: &mut Tally) {
+    use syn::spanned::Spanned;
+    // (1) k malformed lists, then a well-formed one - for k up to 1100 (counters and guards with
+    // limits such as 64, 128, 256, 1024 would trip on the way)
+    let ps = probes();
+    let meta_of = |src: &str| -> syn::Meta { syn::parse_str::<syn::DeriveInput>(&format!("#[{src}] struct S;")).unwrap().attrs[0].meta.clone() };
+    let good = [meta_of("v(a, b = 1)"), meta_of("v()"), meta_of("v(v(v(v(a))))")];
+    let bad_lists = [meta_of("v(a b)"), meta_of("v(a = )"), meta_of("v(,)"), meta_of("v(a, , b)"), meta_of("v(=)")];
+    for mask in [LIST, LIST | WORD | VALUE | EXPR, 0x7f] {
+        let Some((_, via_meta, via_nested)) = ps.iter().find(|(m, _, _)| *m == mask) else { continue };
+        MODE.with(|m| m.set(0));
+        let mut refused = 0usize;
+        for round in 0..1100usize {
+            let b = &bad_lists[round % bad_lists.len()];
+            LOG.with(|l| l.borrow_mut().clear());
+            let r = catch(std::panic::AssertUnwindSafe(|| if round % 2 == 0 { via_meta(b) } else { via_nested(&NestedMeta::Meta(b.clone())) }));
+            t.evaluations += 1;
+            match r {
+                Ok(Err(_)) => refused += 1,
+                Ok(Ok(())) => {}
+                Err(p) => t.violate(Violation { key: format!("C15 history mask={mask:#x} :: malformed list panicked: {p}"), what: format!("a malformed list after {round} others panicked: {p}"), case: json!({"engine": "history"}), detail: json!({}) }),
+            }
+            if [0usize, 1, 2, 7, 8, 15, 16, 31, 32, 63, 64, 65, 127, 128, 129, 255, 256, 257, 511, 512, 1023, 1024, 1025, 1099].contains(&round) {
+                for g in &good {
+                    LOG.with(|l| l.borrow_mut().clear());
+                    let r = catch(std::panic::AssertUnwindSafe(|| via_meta(g)));
+                    let log: Vec<&'static str> = LOG.with(|l| l.borrow().clone());
+                    t.evaluations += 1;
+                    t.nontrivial += 1;
+                    t.hit("history_after_refusals");
+                    if !matches!(r, Ok(Ok(()))) || log != ["list"] {
+                        t.violate(Violation {
+                            key: format!("C15 history mask={mask:#x} after={round} :: {r:?} {log:?}"),
+                            what: format!("after {} refused lists on this thread a well-formed list `{}` is answered {:?} (hooks called {log:?}); the first one was accepted", round + 1, quote::ToTokens::to_token_stream(g), r.map(|x| x.map_err(|e| e.to_string()))),
+                            case: json!({"engine": "history"}),
+                            detail: json!({}),
+                        });
+                    }
+                }
+            }
+        }
+        if refused != 1100 {
+            t.violate(Violation { key: format!("C15 history mask={mask:#x} :: refused {refused} of 1100"), what: format!("{refused} of 1100 malformed lists were refused"), case: json!({"engine": "history"}), detail: json!({}) });
+        }
+    }
+    // (2) attributes turned into lists one after another: each list is located at its own attribute
+    let src = "#[first] #[second(x)] #[third] #[a::fourth] #[fifth(y = 1)] #[sixth] struct S;";
+    let di: syn::DeriveInput = syn::parse_str(src).unwrap();
+    for pass in 0..2 {
+        let order: Vec<usize> = if pass == 0 { (0..di.attrs.len()).collect() } else { (0..di.attrs.len()).rev().collect() };
+        for i in order {
+            let a = &di.attrs[i];
+            t.evaluations += 1;
+            t.hit("attribute_lists_located");
+            let own = vrt::spans::cols(a.span());
+            match catch(std::panic::AssertUnwindSafe(|| darling::util::parse_attribute_to_meta_list(a))) {
+                Ok(Ok(list)) => {
+                    let whole = vrt::spans::cols(list.span());
+                    let delim = vrt::spans::cols(list.delimiter.span().join());
+                    let path_ok = squash(list.path.to_token_stream().to_string()) == squash(a.path().to_token_stream().to_string());
+                    let inside = |c: Option<(usize, usize)>| match (c, own) {
+                        (Some(c), Some(o)) => vrt::spans::within(c, o),
+                        _ => true,
+                    };
+                    if !path_ok || !inside(whole) || !inside(delim) {
+                        t.violate(Violation {
+                            key: format!("C15 attribute-list {i} pass={pass} :: {whole:?} {delim:?} {own:?}"),
+                            what: format!("attribute {i} of `{src}` as a list: path ok = {path_ok}, list at {whole:?}, delimiters at {delim:?}, the attribute itself at {own:?}"),
+                            case: json!({"engine": "history"}),
+                            detail: json!({}),
+                        });
+                    }
+                }
+                Ok(Err(e)) => t.violate(Violation { key: format!("C15 attribute-list {i} refused"), what: format!("attribute {i} of `{src}` refused: {e}"), case: json!({"engine": "history"}), detail: json!({}) }),
+                Err(p) => t.violate(Violation { key: format!("C15 attribute-list {i} panicked"), what: format!("attribute {i} of `{src}` panicked: {p}"), case: json!({"engine": "history"}), detail: json!({}) }),
+            }
+        }
+    }
+    vrt::spans::reset();
+}
+
 fn routing_sweep(t: &mut Tally) {
     let ps = probes();
     // source line with real columns for the un-grouped forms
@@ -534,6 +618,7 @@ pub fn main(args: &Args) {
             check_stream(c["text"].as_str().unwrap(), &mut t);
         } else {
             routing_sweep(&mut t);
+            history_probes(&mut t);
             t.violations.retain(|v| v.case["mask"] == c["mask"] && v.case["item"] == c["item"] && v.case["mode"] == c["mode"]);
         }
         for v in &t.violations {
@@ -599,6 +684,7 @@ pub fn main(args: &Args) {
     rep.absorb(tl);
     let mut t = Tally::default();
     routing_sweep(&mut t);
+    history_probes(&mut t);
     t.states += t.evaluations;
     rep.absorb(t);
     rep.tally.transitions = rep.tally.states;
@@ -606,7 +692,7 @@ pub fn main(args: &Args) {
     rep.set("generated_lists", json!(n_lists));
     rep.set("lists_mutated", json!(n_base));
     rep.rule = format!(
-        "parser: every list of 0..{} items over 42 item forms (all literal kinds incl. negative numbers and byte strings; paths incl. `::a::b`, keywords, raw identifiers; name-values with 11 expression forms incl. turbofish / closure commas and `true = 1`; lists nested to depth 3; `a(,)`), with and without a trailing comma, and every single-token mutation (delete, duplicate, insert one of , ; = :: ! -, identifier -> keyword) of {n_base} of them, (plus lists of 5..65 items with the forms in rotation from every offset) against an independent recogniser (all segmentations at commas into chunks that are wholly a syn::Lit or a syn::Meta): accept/reject, item count, order, class, token text, print/re-parse identity. routing: 128 probe types (every subset of the seven hooks overridden) x 58 item forms (word, lists incl. one-literal lists, name-value with each literal kind incl. byte / byte-string / C-string / negated numbers, operators in front of literals and other non-literal expressions, values inside 1-2 invisible groups, bare literal members) x 4 hook behaviours (Ok, unspanned Err, pre-spanned Err, unspanned bundle of spanned members) against the documented priority chain: exactly one hook (the outermost overridden on the chain) or a default rejection of the documented kind; errors come back with the item's span unless already spanned (for a word or a list exactly the item's span, for a name-value a span inside the item). states = token streams / (probe, item, behaviour) triples.",
+        "history probes: 1100 malformed lists alternating with well-formed ones on one thread (a well-formed list is answered as the first time after 1, 2, 8, .. 1025 refusals), six attributes turned into lists in both orders (each located at its own tokens). parser: every list of 0..{} items over 42 item forms (all literal kinds incl. negative numbers and byte strings; paths incl. `::a::b`, keywords, raw identifiers; name-values with 11 expression forms incl. turbofish / closure commas and `true = 1`; lists nested to depth 3; `a(,)`), with and without a trailing comma, and every single-token mutation (delete, duplicate, insert one of , ; = :: ! -, identifier -> keyword) of {n_base} of them, (plus lists of 5..65 items with the forms in rotation from every offset) against an independent recogniser (all segmentations at commas into chunks that are wholly a syn::Lit or a syn::Meta): accept/reject, item count, order, class, token text, print/re-parse identity. routing: 128 probe types (every subset of the seven hooks overridden) x 58 item forms (word, lists incl. one-literal lists, name-value with each literal kind incl. byte / byte-string / C-string / negated numbers, operators in front of literals and other non-literal expressions, values inside 1-2 invisible groups, bare literal members) x 4 hook behaviours (Ok, unspanned Err, pre-spanned Err, unspanned bundle of spanned members) against the documented priority chain: exactly one hook (the outermost overridden on the chain) or a default rejection of the documented kind; errors come back with the item's span unless already spanned (for a word or a list exactly the item's span, for a name-value a span inside the item). states = token streams / (probe, item, behaviour) triples.",
         if thorough { 3 } else { 2 }
     );
     rep.assumptions = vec!["syn::Lit / syn::Meta parsing of a whole chunk defines what an item is".into()];
